@@ -80,9 +80,18 @@ func headerName(fn string) string {
 
 var extMIME = map[string]string{"html": "text/html", "json": "application/json", "txt": "text/plain", "xml": "application/xml", "png": "image/png"}
 
+// unquote returns the value of a quoted-string: without the quotes and with every quoted-pair \c replaced by c.
 func unquote(v string) string {
 	if len(v) >= 2 && v[0] == '"' && v[len(v)-1] == '"' {
-		return v[1 : len(v)-1]
+		v = v[1 : len(v)-1]
+		var sb strings.Builder
+		for i := 0; i < len(v); i++ {
+			if v[i] == '\\' && i+1 < len(v) {
+				i++
+			}
+			sb.WriteByte(v[i])
+		}
+		return sb.String()
 	}
 	return v
 }
@@ -306,7 +315,7 @@ var mimes = []string{"text/html", "text/plain", "application/json", "image/png",
 var tokens = []string{"utf-8", "gzip", "br", "en", "de", "iso-8859-1", "zstd", "fr", "es", "it", "pt", "nl", "sv", "da", "fi", "pl", "cs", "hu", "ja", "ko"}
 var qPool = []string{"0", "0.0", "0.000", "0.001", "0.1", "0.5", "0.50", "0.9", "0.999", "1", "1.0", "1.000"}
 var pnames = []string{"charset", "level", "v", "title"}
-var pvals = []string{"utf-8", "1", "2", `"a b"`, `"1"`, "UTF-8", `"x,y"`}
+var pvals = []string{"utf-8", "1", "2", `"a b"`, `"1"`, "UTF-8", `"x,y"`, `"x\"y"`, `"q\\"`}
 
 func genStep(t *rapid.T) Step {
 	s := Step{Fn: rapid.SampledFrom([]string{"accepts", "accepts", "accepts", "format", "charsets", "encodings", "languages"}).Draw(t, "fn")}
